@@ -6,6 +6,7 @@ import (
 	"go/types"
 	"math"
 	"os"
+	"regexp"
 	"sort"
 	"strings"
 
@@ -63,6 +64,7 @@ type Witness struct {
 	Model   map[string]string `json:"model"`
 	Choices []int             `json:"choices"`
 	Params  map[string]int    `json:"params"`
+	Property string           `json:"property"`
 }
 
 type Engine struct {
@@ -86,6 +88,7 @@ type Engine struct {
 	nStores  int
 	loopBound int
 	maxPaths  int
+	prop      string
 	maxInstr  int
 
 	onceDone map[*Loc]bool
@@ -399,7 +402,32 @@ func (e *Engine) assertStat(msg, pos string) *AssertStat {
 	return st
 }
 
+var labelRe = regexp.MustCompile(`^(C\d+(?:/C\d+)*):`)
+
+// relevantMsg: an assertion message may start with the ids of the properties it belongs to
+// ("C03/C08: ..."); any other message belongs to every property that runs the harness.
+func (e *Engine) relevantMsg(msg string) bool {
+	if e.prop == "" {
+		return true
+	}
+	m := labelRe.FindStringSubmatch(msg)
+	if m == nil {
+		return true
+	}
+	for _, id := range strings.Split(m[1], "/") {
+		if id == e.prop {
+			return true
+		}
+	}
+	return false
+}
+
 func (e *Engine) doAssert(c *Term, msg string, pos string) {
+	if !e.relevantMsg(msg) {
+		// belongs to other properties only: not evaluated here, so that its failure cannot cut short a
+		// path on which an obligation of THIS property is still to come
+		return
+	}
 	st := e.assertStat(msg, pos)
 	if c.IsTrue() {
 		st.Trivial++
@@ -567,7 +595,7 @@ func (e *Engine) RunOne(fn *ssa.Function, prefix []Decision, wit *Witness) [][]D
 	if _, ok := e.h.Expect[st]; !ok && st == "LIB-PANIC" {
 		e.h.Expect[st] = "fail:the code under test panics"
 	}
-	if v, ok := e.h.Expect[st]; ok && strings.HasPrefix(v, "fail:") {
+	if v, ok := e.h.Expect[st]; ok && strings.HasPrefix(v, "fail:") && e.relevantMsg(v[5:]) {
 		msg := v[5:]
 		stt := e.assertStat(msg, "")
 		stt.Sat++
